@@ -71,6 +71,10 @@ func (t Triangle) Area() float64 {
 	a, b, c := t.orderedLengths()
 	A := (c + (b + a)) * (a - (c - b))
 	A *= (a + (c - b)) * (c + (b - a))
+	if A < 0 {
+		// Rounding can leave a tiny negative product for collinear vertices.
+		A = 0
+	}
 	return math.Sqrt(A) / 4
 }
 
